@@ -423,6 +423,8 @@ class Frame:
 
     @staticmethod
     def _memread(mem, addr, width):
+        if addr is None:                 # zero-width address: single-word memory
+            return mem[0]
         aw = addr.size()
         r = bv(0, width)
         for a in range(len(mem) - 1, -1, -1):
@@ -456,13 +458,13 @@ class Frame:
                 if not active(c):
                     continue
                 data = self.value(c.data); addr = self.value(c.addr); en = self.value(c.en)
-                aw = addr.size()
+                aw = addr.size() if addr is not None else 0
                 w = data.size()
                 uniform = all(n == c.en[0] for n in c.en)
                 for a in range(len(mem)):
                     if a >= (1 << aw):
                         continue
-                    hit = addr == bv(a, aw)
+                    hit = (addr == bv(a, aw)) if aw else z3.BoolVal(True)
                     if uniform:
                         mem[a] = z3.If(z3.And(hit, self.net(c.en[0]) == 1), data, mem[a])
                     else:
@@ -483,11 +485,12 @@ class Frame:
                     if not active(wc):
                         continue
                     data = self.value(wc.data); waddr = self.value(wc.addr); en = self.value(wc.en)
-                    aw = waddr.size()
+                    aw = waddr.size() if waddr is not None else 0
                     for a in range(len(mem)):
                         if a >= (1 << aw):
                             continue
-                        mem[a] = z3.If(waddr == bv(a, aw), (data & en) | (mem[a] & ~en), mem[a])
+                        hit = (waddr == bv(a, aw)) if aw else z3.BoolVal(True)
+                        mem[a] = z3.If(hit, (data & en) | (mem[a] & ~en), mem[a])
                 rd = self._memread(mem, addr, c.width)
             else:
                 rd = self._memread(self.state[c.memory], addr, c.width)
